@@ -458,6 +458,16 @@ def template_cases(st):
             add("two-toplevel-tags", f"(Duration/5 s, Event-context, ({s1}))")
             add("two-toplevel-tags", f"(Event-context, Duration/5 s, ({s1}))")
         add("valid:duration", f"(Duration/2 s, Delay/3 s, ({s1}))")
+        if attr("Onset", "topLevelTagGroup") and getattr(st, "def_strings", None):
+            # a faulty duration group written after (and before) another top-level group that holds Delay or Duration: every
+            # such group is judged, whatever stands before it
+            for other in ("(Delay/1 s, Onset, Def/Pl)", "(Def/Pl, Delay/1 s, Offset)", f"(Duration/1 s, ({s3}))",
+                          f"(Delay/1 s, ({s3}))"):
+                for faulty in (f"(Duration/2 s, {s2}, ({s1}))", f"(Delay/2 s, ({s1}), ({s2}))", "(Duration/2 s)"):
+                    kind = "duration-without-group" if faulty == "(Duration/2 s)" else "duration-extra-tag"
+                    add(kind, f"{other}, {faulty}")
+                    add(kind, f"{faulty}, {other}")
+                add("valid:duration", f"{other}, (Duration/2 s, ({s1}))")
     return out
 
 
